@@ -226,7 +226,7 @@ class RepeatedValueWrapper(MutableSequence[_V], Generic[_M, _V]):
             assert isinstance(value, Iterable)
             values = list(value)
         r = indexes.range_from_index(index, len(self._raw_indexes))
-        raw_indexes_to_update = self._raw_indexes[indexes.slice_from_range(r)]
+        raw_indexes_to_update = [self._raw_indexes[i] for i in r]
         # We don't allow assignment with distinct length here because the underlying models may not be consecutive.
         if len(raw_indexes_to_update) != len(values):
             raise ValueError(
